@@ -166,6 +166,8 @@ def run(rep, build, tier, seed):
             if I["rc"] < 0 or I["rc"] > 128:
                 rep.finding("crash|%r" % text[:40], "config text %r: exit %s (crash or hang)" % (text[:60], I["rc"]), {"kind": "config", "cfg_b64": common.b64(text)})
                 continue
+            if b"using" in text:
+                continue          # the model keeps only the documented form of 'using <version>' (DESIGN.md): such text is crash-tested, not compared
             d = cfgrun.compare(I, M)
             if d:
                 corr.append((text, d))
